@@ -48,6 +48,7 @@ type response struct {
 	Pending int        `json:"pending,omitempty"` // id under which the allocation site will be resolved
 	Tainted uint64     `json:"tainted,omitempty"` // bytes of out-of-proportion allocations in this worker's life
 	Used    uint64     `json:"used,omitempty"`    // heap bytes allocated in this worker's life (none is ever freed)
+	Stage   string     `json:"stage,omitempty"`
 	Left    []string   `json:"left,omitempty"`
 	Keys    []string   `json:"keys,omitempty"`
 	Sites   []siteInfo `json:"sites,omitempty"` // resolve
@@ -111,7 +112,7 @@ func doCall(en *entry, b []byte, x *env) (resp response) {
 	sink = nil
 	resp.Alloc = heapAllocs() - before
 	resp.Over = resp.Alloc > resp.Ceil
-	resp.Left, resp.Keys = out.Left, out.Keys
+	resp.Left, resp.Keys, resp.Stage = out.Left, out.Keys, out.Stage
 	switch {
 	case resp.Panic != nil:
 		resp.Outcome = "panic"
